@@ -67,7 +67,7 @@ func recvLooksLike(s *Site, words ...string) bool {
 // Atom classifies a call site that is not entered (callee outside the module or an interface method
 // without module implementation). Module wrappers (Keeper.MintCoins ...) are entered, not classified.
 func (cg *CallGraph) Atom(s *Site) string {
-	if len(s.Callees) > 0 {
+	if len(s.Callees) > 0 && !s.Invoke {
 		return ""
 	}
 	name := s.Method
